@@ -82,7 +82,11 @@ pub fn case_strategy() -> impl Strategy<Value = LiqCase> {
             let emode = emode && !banks[1].emode_entries.is_empty();
             let boosted_tag = banks[1].emode_entries.first().map(|e| e.tag).unwrap_or(0);
             for (i, b) in banks.iter_mut().enumerate() {
-                b.init_limit = 0;
+                // the collateral bank keeps its generated collateral-value cap (it discounts the INITIAL weight only, so
+                // maintenance health - the liquidation criterion - must not feel it); no cap elsewhere
+                if i != 0 {
+                    b.init_limit = 0;
+                }
                 if emode {
                     // the debt bank keeps its generated entries; the collateral bank carries the tag of the first one
                     if i == 0 {
@@ -462,6 +466,9 @@ pub fn run(ctx: &Ctx) -> Report {
                 }
                 if st.success && c.spec.banks[0].staked.is_some() {
                     rep.label("success:staked-collateral");
+                }
+                if st.success && c.spec.banks[0].init_limit != 0 {
+                    rep.label("success:collateral-bank-capped");
                 }
                 if st.success && c.reduce_only_collateral {
                     rep.label("success:reduce-only-collateral");
